@@ -633,6 +633,25 @@ def t_repeat_interleave(I, a, repeats, dim=None):
     return Tensor(tshape.repeat_interleave(I, a, repeats, dim))
 
 
+def t_diag(I, a):
+    a = lift(a)
+    if a.rank != 1 or a.shape[0].concrete() is None:
+        raise Unsupported("torch.diag of this input")
+    n = a.shape[0].concrete()
+    d = Dim([n])
+
+    def fn(idx):
+        i = idx[0][0] if n != 1 else 0
+        j = idx[1][0] if n != 1 else 0
+        return z3.If(zint(i) == zint(j), zreal(a.at([idx[0]])), z3.RealVal(0))
+
+    return Tensor(STensor([d, d], fn, "real"))
+
+
+def t_view_as(I, t, other):
+    return Tensor(tshape.reshape(I, t.val, [d.size() for d in lift(other).shape]))
+
+
 def t_numel(I, a):
     v = lift(a)
     tot = 1
@@ -865,6 +884,9 @@ TENSOR_METHODS = {
     "logical_not": t_logical_not,
     "numpy": lambda I, t: NumpyArray(t.val),
     "__len__": lambda I, t: t.val.shape[0].size(),
+    "view_as": t_view_as,
+    "neg": lambda I, t: Tensor(tlib.ew1(t.val, lambda x: -zreal(x), "real")),
+    "tanh": lambda I, t: Tensor(tlib.ew1(t.val, lambda x: tlib.tanh_term(zreal(x)), "real")),
 }
 
 TORCH_DTYPES = {k: DType(k, v) for k, v in DTYPES.items()}
@@ -1012,6 +1034,7 @@ def install(I):
         "repeat_interleave": B("repeat_interleave", t_repeat_interleave),
         "index_select": B("index_select", t_index_select),
         "numel": B("numel", t_numel),
+        "diag": B("diag", t_diag),
         "is_tensor": B("is_tensor", lambda I2, o: isinstance(o, Tensor)),
         "no_grad": NoGrad(),
         "set_grad_enabled": NoGrad(),
